@@ -17,7 +17,7 @@ AcidPtsX(Ws, Ts) == { [fn |-> "sulfuric_acid_density", a |-> [NoArgs EXCEPT !.T 
 MH2SO4 == R(9807948, 100000000)            \* 98.07948 g/mol = 2 H + S + 4 O, in kg/mol
 InvPts(Ws, Ts) == { [fn |-> "density_from_concentration", a |-> [NoArgs EXCEPT !.T = HK(t), !.w = R(w, 100), !.M = MH2SO4]] :
                       w \in Ws, t \in Ts }
-SchumpePts(Sels, Cs) == { [fn |-> "lg_solubility_ratio", a |-> [NoArgs EXCEPT !.sel = s, !.c1 = c[1], !.c2 = c[2]]] :
+SchumpePts(Sels, Cs) == { [fn |-> "lg_solubility_ratio", a |-> [NoArgs EXCEPT !.sel = s, !.c1 = c[1], !.c2 = c[2], !.c3 = QAdd(c[1], c[2])]] :
                             s \in Sels, c \in Cs }
 HenryPts(Fs, Sels, Ts, Xs) ==
     { [fn |-> f, a |-> [NoArgs EXCEPT !.T = HK(t), !.H0 = HenrySel[s].H0, !.Td = HenrySel[s].Td, !.sel = s,
@@ -29,6 +29,17 @@ NernstPts(Ts, Zs, Cs) == { [fn |-> "nernst", a |-> [NoArgs EXCEPT !.T = HK(t), !
                              t \in Ts, z \in Zs, c \in Cs }
 MobPts(Ts, Zs, Ds) == { [fn |-> "mobility", a |-> [NoArgs EXCEPT !.T = HK(t), !.z = Q(z), !.D = d]] :
                           t \in Ts, z \in Zs, d \in Ds }
+
+(* option wrappers (coverage audit): the `warn` / `backend` keywords, optional arguments passed   *)
+(* explicitly, the way a Henry constant is evaluated, err_mult, atol                              *)
+WithOpts(S, w, b) == { [fn |-> p.fn, a |-> [p.a EXCEPT !.wflag = w, !.be = b]] : p \in S }
+Explicit(S) == { [fn |-> p.fn, a |-> [p.a EXCEPT !.impl = FALSE]] : p \in S }
+WithVia(S, v) == { [fn |-> p.fn, a |-> [p.a EXCEPT !.via = v]] : p \in S }
+WithErr(S, Es) == { [fn |-> p.fn, a |-> [p.a EXCEPT !.em0 = e[1], !.em1 = e[2], !.impl = e[3]]] : p \in S, e \in Es }
+WithAtol(S, As) == { [fn |-> p.fn, a |-> [p.a EXCEPT !.atol = x]] : p \in S, x \in As }
+Corr5(Ts) == P1("water_density", Ts) \cup P1("water_viscosity", Ts) \cup P1("water_diffusion", Ts)
+             \cup PermPts(Ts, {1}) \cup AcidPts({50}, Ts)
+Err_q == { <<Q(1), Q(1), TRUE>>, <<Q(-1), Q(2), TRUE>>, <<Q(0), Q(0), FALSE>> }
 
 TW_q == {27315, 27515, 27713, 27715, 28315, 29315, 29815, 31315,   27314, 31316, 25000, 35000}
 TV_q == {27315, 27815, 29315, 29815, 32315, 34815, 37315,   27314, 37316, 26000, 40000}
@@ -43,7 +54,18 @@ Pts_q ==
     \cup AcidPtsX({50}, {29300, 27314})
     \cup PermPts(TP_q, {1, 1000}) \cup PermPts({37315}, {3000})
     \cup AcidPts({10, 50, 90, 5, 95}, TA_q) \cup InvPts({10, 30, 50}, {27315, 29300, 32315})
-    \cup SchumpePts(1..6, Conc_q)
+    \cup SchumpePts(1..8, Conc_q)
+    \* coverage audit: options and defaults
+    \cup WithOpts(Corr5({29815, 26000, 40000}), "off", "default") \cup WithOpts(Corr5({31000, 25000}), "on", "default")
+    \cup Explicit(Corr5({29815}))
+    \cup WithOpts(PermPts({29815, 34315, 20000}, {1, 1000}), "default", "math")
+    \cup WithOpts(HenryPts({"henry_H", "henry_c"}, {1, 4}, {29000, 29315}, {R(1, 1)}), "default", "math")
+    \cup WithOpts(NernstPts({31000}, {-2, 1}, NC_q), "default", "numpy") \cup WithOpts(NernstPts({29815}, {2}, NC_q), "default", "math")
+    \cup WithVia(HenryPts({"henry_H"}, {1, 2, 4, 5}, {29000, 29315}, {QZero}), "function")
+    \cup WithVia(HenryPts({"henry_H"}, {1, 5}, {31000}, {QZero}), "alias")
+    \cup WithErr(P1("water_diffusion", {27315, 29815, 35000}), Err_q)
+    \cup WithAtol(InvPts({30, 50}, {29300}), {R(1, 1000000), R(1, 10)}) \cup Explicit(InvPts({30}, {29815, 29300}))
+    \cup WithOpts(InvPts({30}, {29300, 33000, 27000}), "on", "default") \cup InvPts({30}, {29815, 33000})
     \cup HenryPts({"henry_H"}, {1, 2, 4, 5}, {27315, 29315, 29815, 31000, 35000}, {QZero})
     \cup HenryPts({"henry_c", "henry_roundtrip"}, {1, 3, 4}, {29000, 29815, 31000}, {R(1, 1), R(21, 100)})
     \cup HenryPts({"henry_P"}, {1, 2, 5}, {29000, 29815, 31000}, {R(1, 1000), R(1, 4)})
